@@ -36,24 +36,36 @@ SINGLE_FRAME = {"rst7", "ncrst"}
 NONDETERMINISTIC = {"h5", "pdb.gz", "xyz.gz", "dtr", "dcd", "nc", "netcdf", "ncdf", "ncrst"}
 
 
-def make_top(n_atoms):
+def make_top(n_atoms, bonds=False):
     top = md.Topology()
     ch = top.add_chain()
+    atoms = []
     for a in range(n_atoms):
         res = top.add_residue("ALA", ch, resSeq=a + 1)
-        top.add_atom("CA", md.element.carbon, res)
+        atoms.append(top.add_atom("CA", md.element.carbon, res))
+    if bonds:
+        for a, b in zip(atoms, atoms[1:]):
+            top.add_bond(a, b)
     return top
 
 
-def make_traj(ids, n_atoms=4):
+def make_traj(ids, n_atoms=4, variant=None):
+    """variant (the branches inside Trajectory.save_* depend on what the trajectory carries):
+    {"cell": False} no unit cell, {"time": False} default time, {"bonds": True} a bonded topology"""
+    v = variant or {}
     T = len(ids)
     xyz = np.zeros((T, n_atoms, 3), dtype=np.float32)
     for k, i in enumerate(ids):
         for a in range(n_atoms):
             xyz[k, a] = ((i + 1) * 0.1, (a + 1) * 0.1, 0.05)
-    t = md.Trajectory(xyz, make_top(n_atoms), time=np.array(ids, dtype=np.float32))
-    t.unitcell_lengths = np.full((T, 3), 20.0, dtype=np.float32)
-    t.unitcell_angles = np.full((T, 3), 90.0, dtype=np.float32)
+    top = make_top(n_atoms, bonds=bool(v.get("bonds")))
+    if v.get("time", True):
+        t = md.Trajectory(xyz, top, time=np.array(ids, dtype=np.float32))
+    else:
+        t = md.Trajectory(xyz, top)
+    if v.get("cell", True):
+        t.unitcell_lengths = np.full((T, 3), 20.0, dtype=np.float32)
+        t.unitcell_angles = np.full((T, 3), 90.0, dtype=np.float32)
     return t
 
 
@@ -206,7 +218,7 @@ def prepare_spelling(base, kind):
 
 def do_action(case, base, kind="str"):
     ext, entry, frames, force = case["ext"], case["entry"], case["frames"], case["force"]
-    new = make_traj(list(range(frames)))
+    new = make_traj(list(range(frames)), variant=case.get("traj"))
     cwd = os.getcwd()
     home = os.environ.get("HOME")
     try:
